@@ -201,8 +201,18 @@ def run(tier, seed, t0):
         # (ii) every public header alone as C99 and as C++11
         hdrs = [h for h in sorted(os.listdir(inc)) if h.endswith(".h") and h not in INTERNAL_CPP_ONLY]
         for h in hdrs:
-            for lang, cc in (("c99", "gcc -std=c99 -Wall -Werror -x c"), ("c++11", "g++ -std=gnu++11 -Wall -Werror -x c++")):
-                rc, o = sh("%s -fsyntax-only -I%s %s" % (cc, inc, os.path.join(inc, h)))
+            import shutil
+            compilers = [("c99", "gcc -std=c99 -Wall -Werror -x c"), ("c++11", "g++ -std=gnu++11 -Wall -Werror -x c++"),
+                         # compilers that enforce the language standard (a client may well use them): ISO C99 and ISO C++11, no extensions
+                         ("c99-strict", "gcc -std=c99 -pedantic-errors -Wall -x c"), ("c++11-strict", "g++ -std=c++11 -pedantic-errors -Wall -x c++")]
+            if shutil.which("clang"):
+                compilers += [("c99-clang", "clang -std=c99 -Wall -Werror -x c"), ("c99-clang-strict", "clang -std=c99 -pedantic-errors -Wall -x c"), ("c++11-clang", "clang++ -std=c++11 -Wall -Werror -x c++")]
+            for lang, cc in compilers:
+                # a translation unit that includes the header and declares something of its own (ISO C forbids an empty one)
+                tu = os.path.join(tmp, "tu_%s.%s" % (h.replace(".", "_"), "c" if lang.startswith("c99") else "cpp"))
+                with open(tu, "w") as fh:
+                    fh.write('#include "%s"\nextern int c20_translation_unit_is_not_empty;\n' % h)
+                rc, o = sh("%s -fsyntax-only -I%s %s" % (cc, inc, tu))
                 decisions += 1
                 cells["header:%s:%s" % (h, lang)] = 1
                 if rc:
